@@ -27,6 +27,7 @@
    buffer_info of the wrapped array) over the same heap, and the TupleVector wrapper (tuplevector.hh +
    dune.common.TupleVector) as a list of tagged values. *)
 From Coq Require Import List ZArith QArith Qabs Qreduction Bool String Ascii DecimalString.
+From DuneV Require Import Params_gen.
 Import ListNotations.
 
 (* ---------------------------------------------------------------- heap *)
@@ -53,6 +54,12 @@ Inductive c20_exc := C20_IndexError | C20_TypeError | C20_ValueError | C20_Runti
 Inductive c20_res (A : Type) := C20_Ok (a : A) | C20_Exc (e : c20_exc).
 Arguments C20_Ok {A} a.
 Arguments C20_Exc {A} e.
+
+(* literals re-read from the binding sources by tools/params.d/C20.py (coq/Params_gen.v): exception classes as codes,
+   strings as character codes *)
+Definition c20_exc_of_code (c : nat) : c20_exc :=
+  match c with O => C20_IndexError | S O => C20_TypeError | S (S O) => C20_ValueError | _ => C20_RuntimeError end.
+Definition c20_string_of_codes (l : list nat) : string := string_of_list_ascii (map ascii_of_nat l).
 
 Inductive c20_kind := C20_Vec | C20_Arr.
 Record c20_obj := { c20_k : c20_kind; c20_cells : list nat }.
@@ -102,6 +109,13 @@ Definition c20_wrapped_index (n : nat) (i : Z) : c20_res nat :=
   | C20_Exc C20_TypeError => c20_np_index n i
   | r => r
   end.
+(* DynamicVector (no buffer to fall back to): _dynamicVectorIndex of python/dune/common/__init__.py (709c18d), then the C++ overload:
+     if isinstance(index, int) and index < 0: index += len(self); if index < 0: raise IndexError *)
+Definition c20_dyn_index (n : nat) (i : Z) : c20_res nat :=
+  if i <? 0 then
+    (let j := i + Z.of_nat n in
+     if j <? 0 then C20_Exc C20_IndexError else c20_cpp_index n j)
+  else c20_cpp_index n i.
 Definition c20_getitem_index (k : c20_kind) (n : nat) (i : Z) : c20_res nat :=
   match k with C20_Vec => c20_wrapped_index n i | C20_Arr => c20_np_index n i end.
 Definition c20_setitem_index (cfg : c20_cfg) (k : c20_kind) (n : nat) (i : Z) : c20_res nat :=
@@ -142,6 +156,34 @@ Definition c20_npv_cells (cfg : c20_cfg) (H : c20_heap) (cells : list nat) : opt
   let bi := c20_buffer_info cells in
   let addrs := map (c20_npv_addr cfg bi) (seq 0 (c20_bi_size bi)) in
   if forallb (fun a => (0 <=? a) && (a <? Z.of_nat (List.length H))) addrs then Some (map Z.to_nat addrs) else None.
+(* init( pybind11::buffer x ) of registerFieldVector, literally:
+     if( info.format != format_descriptor< K >::format() ) throw value_error; if( info.ndim != 1 ) throw value_error;
+     stride = info.strides[0] / sizeof( K ); sz = min( size, info.shape[0] );
+     self = FV( K(0) ); for( i = 0; i < sz; ++i ) self[ i ] = ptr[ i*stride ];                                         *)
+Fixpoint c20_cbuf_loop (self : list Q) (H : c20_heap) (bi : c20_binfo) (i cnt : nat) : list Q :=
+  match cnt with
+  | O => self
+  | S c => c20_cbuf_loop (c20_write self i (c20_read H (Z.to_nat (c20_bi_ptr bi + Z.of_nat i * c20_bi_stride bi)))) H bi (S i) c
+  end.
+Definition c20_construct_buffer (n : nat) (H : c20_heap) (format_ok : bool) (ndim : nat) (bi : c20_binfo) : c20_res (list Q) :=
+  if negb format_ok then C20_Exc (c20_exc_of_code c20_param_buffer_format_exc)
+  else if negb (Nat.eqb ndim c20_param_buffer_ndim) then C20_Exc (c20_exc_of_code c20_param_buffer_ndim_exc)
+  else C20_Ok (c20_cbuf_loop (repeat 0%Q n) H bi 0 (Nat.min n (c20_bi_size bi))).
+(* list(v): no __iter__ is bound, so Python iterates with the sequence protocol: __getitem__(0), (1), ... until IndexError.
+   None = out of fuel / another exception (excluded by C20_iteration for fuel > n) *)
+Fixpoint c20_iter_loop (fuel : nat) (k : c20_kind) (H : c20_heap) (cells : list nat) (i : nat) : option (list Q) :=
+  match fuel with
+  | O => None
+  | S f =>
+      match c20_getitem_index k (List.length cells) (Z.of_nat i) with
+      | C20_Ok j => match c20_iter_loop f k H cells (S i) with
+                    | Some r => Some (c20_read H (nth j cells O) :: r)
+                    | None => None
+                    end
+      | C20_Exc C20_IndexError => Some []
+      | C20_Exc _ => None
+      end
+  end.
 Local Close Scope Z_scope.
 
 (* ---------------------------------------------------------------- TupleVector (tuplevector.hh, dune.common.TupleVector) *)
@@ -216,7 +258,7 @@ Definition c20_vscale (q : Q) (a : list Q) := map (fun x => c20_qmul x q) a.
 Definition c20_vdiv (q : Q) (a : list Q) := map (fun x => c20_qdiv x q) a.
 Definition c20_vadds (q : Q) (a : list Q) := map (fun x => c20_qadd x q) a.
 Definition c20_vsubs (q : Q) (a : list Q) := map (fun x => c20_qsub x q) a.
-Definition c20_vneg (a : list Q) := c20_vscale (-1 # 1) a.          (* *copy *= ValueType( -1 ) *)
+Definition c20_vneg (a : list Q) := c20_vscale (inject_Z c20_param_neg_factor) a.          (* *copy *= ValueType( -1 ) *)
 (* DenseVector::operator*( other ): result = 0; for i: result += x[i]*y[i] *)
 Fixpoint c20_dot_loop (acc : Q) (a b : list Q) : Q :=
   match a, b with
@@ -257,9 +299,11 @@ Fixpoint c20_join (sep : string) (l : list string) : string :=
   | x :: r => x ++ sep ++ c20_join sep r
   end.
 (* to_string( FieldVector ) = "(" + join( ", ", ... ) + ")" *)
-Definition c20_str (a : list Q) : string := "(" ++ c20_join ", " (map c20_fmt a) ++ ")".
+Definition c20_str (a : list Q) : string :=
+  c20_string_of_codes c20_param_str_open ++ c20_join (c20_string_of_codes c20_param_str_sep) (map c20_fmt a)
+  ++ c20_string_of_codes c20_param_str_close.
 Definition c20_repr (a : list Q) : string :=
-  "Dune::FieldVector<" ++ c20_zstr (Z.of_nat (List.length a)) ++ ">" ++ c20_str a.
+  c20_string_of_codes c20_param_repr_prefix ++ c20_zstr (Z.of_nat (List.length a)) ++ c20_string_of_codes c20_param_repr_suffix ++ c20_str a.
 Local Close Scope string_scope.
 
 (* ---------------------------------------------------------------- op scripts *)
@@ -289,7 +333,8 @@ Inductive c20_op :=
   | C20_Assign (r s : nat)
   | C20_Norm1 (r : nat) | C20_Norm22 (r : nat) | C20_NormInf (r : nat)
   (* API-coverage round: remaining bound entry points *)
-  | C20_NewBadBuffer                           (* buffer of another dtype / not one-dimensional: value_error *)
+  | C20_NewBadBuffer (format_ok : bool) (ndim : nat)   (* buffer of another dtype / not one-dimensional: value_error *)
+  | C20_NewFromBuf (n : nat) (r : nat)         (* FieldVector_n( R[r] ): any register through the buffer constructor *)
   | C20_CopyArgs (r : nat) (vals : list Q)     (* v.copy(a, b, ...): a vector of v's type from the arguments *)
   | C20_Float (r : nat)                        (* float(v): bound for size 1 only *)
   | C20_SetSlice (r : nat) (start stop step : option Z) (vals : list Q)   (* v[a:b:c] = vals (through the NumPy fallback) *)
@@ -388,7 +433,11 @@ Definition c20_step (cfg : c20_cfg) (st : c20_state) (op : c20_op) : c20_state *
       | C20_Exc e => (st, C20_ObsExc e)
       end)
   | C20_Len r => c20_on_any st r (fun o => (st, C20_ObsInt (Z.of_nat (c20_size o))))
-  | C20_Iter r => c20_on_any st r (fun o => (st, C20_ObsList (c20_vals st o)))
+  | C20_Iter r => c20_on_any st r (fun o =>
+      match c20_iter_loop (S (c20_size o)) (c20_k o) (c20_H st) (c20_cells o) O with
+      | Some l => (st, C20_ObsList l)
+      | None => (st, C20_ObsUnmodelled)
+      end)
   | C20_Str r => c20_on_vec st r (fun o => (st, C20_ObsStr (c20_str (c20_vals st o))))
   | C20_Repr r => c20_on_vec st r (fun o => (st, C20_ObsStr (c20_repr (c20_vals st o))))
   | C20_Add r s => c20_on_vec st r (fun o => c20_with_operand st o s (fun y => c20_push_new st C20_Vec (c20_vadd (c20_vals st o) y)))
@@ -413,16 +462,16 @@ Definition c20_step (cfg : c20_cfg) (st : c20_state) (op : c20_op) : c20_state *
   (* registerScalarCopyingDenseVectorMethods: n = 1 copies and adds; n > 1 accepts only the int 0 *)
   | C20_AddI r k => c20_on_vec st r (fun o =>
       if Nat.eqb (c20_size o) 1 then c20_push_new st C20_Vec (c20_vadds (inject_Z k) (c20_vals st o))
-      else if Z.eqb k 0 then (st, C20_ObsAlias r) else (st, C20_ObsExc C20_ValueError))
+      else if Z.eqb k c20_param_scalar_neutral then (st, C20_ObsAlias r) else (st, C20_ObsExc (c20_exc_of_code c20_param_scalar_exc)))
   | C20_SubI r k => c20_on_vec st r (fun o =>
       if Nat.eqb (c20_size o) 1 then c20_push_new st C20_Vec (c20_vsubs (inject_Z k) (c20_vals st o))
-      else if Z.eqb k 0 then (st, C20_ObsAlias r) else (st, C20_ObsExc C20_ValueError))
+      else if Z.eqb k c20_param_scalar_neutral then (st, C20_ObsAlias r) else (st, C20_ObsExc (c20_exc_of_code c20_param_scalar_exc)))
   | C20_RAddI r k => c20_on_vec st r (fun o =>
       if Nat.eqb (c20_size o) 1 then c20_push_new st C20_Vec (map (fun x => c20_qadd (inject_Z k) x) (c20_vals st o))
-      else if Z.eqb k 0 then (st, C20_ObsAlias r) else (st, C20_ObsExc C20_ValueError))
+      else if Z.eqb k c20_param_scalar_neutral then (st, C20_ObsAlias r) else (st, C20_ObsExc (c20_exc_of_code c20_param_scalar_exc)))
   | C20_RSubI r k => c20_on_vec st r (fun o =>
       if Nat.eqb (c20_size o) 1 then c20_push_new st C20_Vec (map (fun x => c20_qsub (inject_Z k) x) (c20_vals st o))
-      else if Z.eqb k 0 then c20_push_new st C20_Vec (c20_vneg (c20_vals st o)) else (st, C20_ObsExc C20_ValueError))
+      else if Z.eqb k c20_param_scalar_neutral then c20_push_new st C20_Vec (c20_vneg (c20_vals st o)) else (st, C20_ObsExc (c20_exc_of_code c20_param_scalar_exc)))
   (* float scalar: only the n = 1 overloads take ValueType; for n > 1 no overload matches *)
   | C20_AddF r q => c20_on_vec st r (fun o =>
       if Nat.eqb (c20_size o) 1 then c20_push_new st C20_Vec (c20_vadds q (c20_vals st o)) else (st, C20_ObsExc C20_TypeError))
@@ -446,7 +495,16 @@ Definition c20_step (cfg : c20_cfg) (st : c20_state) (op : c20_op) : c20_state *
   | C20_Norm1 r => c20_on_vec st r (fun o => (st, C20_ObsScalar (c20_one_norm (c20_vals st o))))
   | C20_Norm22 r => c20_on_vec st r (fun o => (st, C20_ObsScalar (c20_two_norm2 (c20_vals st o))))
   | C20_NormInf r => c20_on_vec st r (fun o => (st, C20_ObsScalar (c20_inf_norm (c20_vals st o))))
-  | C20_NewBadBuffer => (st, C20_ObsExc C20_ValueError)
+  | C20_NewBadBuffer fok nd =>
+      match c20_construct_buffer 1 (c20_H st) fok nd (c20_buffer_info []) with
+      | C20_Exc e => (st, C20_ObsExc e)
+      | C20_Ok _ => (st, C20_ObsUnmodelled)
+      end
+  | C20_NewFromBuf n r => c20_on_any st r (fun o =>
+      match c20_construct_buffer n (c20_H st) true 1 (c20_buffer_info (c20_cells o)) with
+      | C20_Ok vals => c20_push_new st C20_Vec vals
+      | C20_Exc e => (st, C20_ObsExc e)
+      end)
   | C20_CopyArgs r vals => c20_on_vec st r (fun o => c20_push_new st C20_Vec (c20_construct (c20_size o) vals))
   | C20_Float r => c20_on_vec st r (fun o =>
       if Nat.eqb (c20_size o) 1 then (st, C20_ObsScalar (nth O (c20_vals st o) 0%Q)) else (st, C20_ObsUnmodelled))
